@@ -1464,3 +1464,56 @@ package cache
 //@   ensures [C12.evict.count] result >= 0 && result <= nEnt()
 //@   ensures [C12.evict.amount] real(result) <= real(nEnt()) * evictFraction + real(nEnt()) * evictFraction / 2251799813685248.0
 //@       && real(result) + 1.0 > real(nEnt()) * evictFraction - real(nEnt()) * evictFraction / 2251799813685248.0
+
+// The generic backend: the same routine and contracts.
+//@ func (*shardedMapOf[V]).evictLeast
+//@   inline
+//@   like (*shardedMap).evictLeast subst TraitEntry=TraitEntryOf[V] shardedMap=shardedMapOf[V] evictLeastEntry=evictLeastEntry
+//@ func (*shardedMapOf[V]).evictMostExpired
+//@   like (*shardedMap).evictMostExpired subst TraitEntry=TraitEntryOf[V] shardedMap=shardedMapOf[V]
+//@ func (*shardedMapOf[V]).evictLeastCounter
+//@   like (*shardedMap).evictLeastCounter subst TraitEntry=TraitEntryOf[V] shardedMap=shardedMapOf[V]
+
+// The sync.Map backend: entries are collected in the Range callback under the key bytes of the entry (sKeyedOK:
+// equal to the key it is stored under), sorted and deleted by key.
+//@ def ssp(s) := sortInv(ghost(spos, s))
+//@ def sHOf(j) := ghost(shof, sortPerm(j))
+//@ def sRankE(val) := isFunc(val, "(*syncMap).evictMostExpired$1")
+
+//@ func (*syncMap).Len
+//@   inline
+//@   range 1 invariant [C12.sm.len.inv] cnt == visitedCount() && cnt >= 0 && cnt < 281474976710657
+
+//@ func (*syncMap).evictLeast
+//@   inline
+//@   range 1 invariant [C12.sm.ev.bounds] len(entries) >= 0 && (len(entries) == 0 || ghost(snent, 0) == len(entries))
+//@   range 1 invariant [C12.sm.ev.sound] forall k int :: 0 <= k && k < len(entries) ==> sHas(c, entries[k].key) && ghost(spos, entries[k].key) == k && visited(entries[k].key)
+//@   range 1 invariant [C12.sm.ev.what] forall k int :: 0 <= k && k < len(entries) ==> ghost(shof, k) == entries[k].key
+//@       && entries[k].val == (sRankE(val) ? sEnt(c, entries[k].key).E : sEnt(c, entries[k].key).C)
+//@   range 1 invariant [C12.sm.ev.complete] forall s string :: sHas(c, s) && visited(s) ==> 0 <= ghost(spos, s) && ghost(spos, s) < len(entries) && entries[ghost(spos, s)].key == s
+//@   range 1 invariant [C12.sm.ev.kept] sMapKept(c) && entriesKept() && smValuesAre(c.data, *TraitEntry) && sKeyedOK(c)
+//@   range 1 ghost spos[entries[len(entries) - 1].key] := len(entries) - 1
+//@   range 1 ghost shof[len(entries) - 1] := entries[len(entries) - 1].key
+//@   range 1 ghost snent[0] := len(entries)
+//@   loop 1 (the deletions) invariant [C12.sm.ev.d.bounds] 0 <= i && i <= evictItems && evictItems <= len(entries) && len(entries) < 1125899906842624
+//@   loop 1 invariant [C12.sm.ev.d.rank] forall s string :: old(sHas(c, s)) ==> 0 <= ssp(s) && ssp(s) < len(entries) && entries[ssp(s)].key == s
+//@       && (sHas(c, s) <==> ssp(s) >= i) && (sHas(c, s) ==> sGet(c, s) == old(sGet(c, s)))
+//@   loop 1 invariant [C12.sm.ev.d.inverse] forall s string :: forall j int :: 0 <= j && j < len(entries) && entries[j].key == s ==> old(sHas(c, s)) && ssp(s) == j
+//@   loop 1 invariant [C12.sm.ev.d.val] forall s string :: old(sHas(c, s)) ==> entries[ssp(s)].val == (sRankE(val) ? old(sEnt(c, s)).E : old(sEnt(c, s)).C)
+//@   loop 1 invariant [C12.sm.ev.d.subset] (forall s string :: sHas(c, s) ==> old(sHas(c, s))) && entriesKept()
+
+//@ func (*syncMap).evictMostExpired
+//@   props C12
+//@   requires sRepOK(c) && sKeyedOK(c) && evictFraction >= 0.0 && evictFraction <= 1.0
+//@   ensures [C12.sm.evict.subset] (forall s string :: sHas(c, s) ==> old(sHas(c, s)) && sGet(c, s) == old(sGet(c, s))) && entriesKept()
+//@   ensures [C12.sm.evict.order] forall a string :: forall b string :: old(sHas(c, a)) && !sHas(c, a) && sHas(c, b) ==> old(sEnt(c, a)).E <= old(sEnt(c, b)).E
+//@   ensures [C12.sm.evict.rank] forall s string :: old(sHas(c, s)) ==> 0 <= ssp(s) && (sHas(c, s) <==> ssp(s) >= result)
+//@   ensures [C12.sm.evict.count] result >= 0
+
+//@ func (*syncMap).evictLeastCounter
+//@   props C12
+//@   requires sRepOK(c) && sKeyedOK(c) && evictFraction >= 0.0 && evictFraction <= 1.0
+//@   ensures [C12.sm.evict.subset] (forall s string :: sHas(c, s) ==> old(sHas(c, s)) && sGet(c, s) == old(sGet(c, s))) && entriesKept()
+//@   ensures [C12.sm.evict.order] forall a string :: forall b string :: old(sHas(c, a)) && !sHas(c, a) && sHas(c, b) ==> old(sEnt(c, a)).C <= old(sEnt(c, b)).C
+//@   ensures [C12.sm.evict.rank] forall s string :: old(sHas(c, s)) ==> 0 <= ssp(s) && (sHas(c, s) <==> ssp(s) >= result)
+//@   ensures [C12.sm.evict.count] result >= 0
